@@ -19,7 +19,9 @@ RULE = (
     "process spawns the C compiler; no waiter's dlopen precedes the builder's link step and ready-marker creation; no process ends "
     "with an exception; every process's kernel gives the reference tensor; the late request does not compile and is correct; the "
     "cache holds lock, marker, object and library. Non-trivial = a schedule in which another process attempts the lock between the "
-    "builder's lock creation and its marker creation; distinct by history hash. The thorough tier additionally enumerates all "
+    "builder's lock creation and its marker creation; distinct by history hash. Half of the three-process cases contain an impatient "
+    "request (timeout of 1-3 polls) that gives up while the builder holds the lock, followed by a third request: the time-out may raise "
+    "in that process only and all other invariants must still hold. The thorough tier additionally enumerates all "
     "interleavings of two processes up to the waiter's first poll."
 )
 
@@ -32,11 +34,19 @@ def cases(draw):
     for i in range(n):  # fairness: every process occurs in the cycle
         if i not in schedule:
             schedule.append(i)
-    return {"n": n, "schedule": schedule, "form": draw(st.sampled_from(["mass_p1", "stiff_p1_interval"]))}
+    case = {"n": n, "schedule": schedule, "form": draw(st.sampled_from(["mass_p1", "stiff_p1_interval"]))}
+    if n == 3 and draw(st.booleans()):
+        # an impatient request: process 1 gives up after 1-3 polls while process 0 (k sync points into its build) still holds the
+        # lock; process 2 arrives afterwards.  The time-out may raise in process 1 but must not disturb the others.
+        k = draw(st.integers(2, 9))
+        polls = draw(st.integers(1, 3))
+        case["impatient"] = {"who": 1, "timeout": polls}
+        case["schedule"] = [0] * k + [1] * (2 * polls + 4) + schedule
+    return case
 
 
-def check_history(hist, kids, n):
-    """Returns None or (kind, message)."""
+def check_history(hist, kids, n, impatient=None):
+    """Returns None or (kind, message).  `impatient`: index of a process that is allowed to end with TimeoutError."""
     compilers = {i for i, t in hist if t.startswith("spawn:cc")}
     if len(compilers) != 1:
         return ("compile-count", f"{len(compilers)} processes spawned the C compiler (expected exactly one): {sorted(compilers)}")
@@ -52,6 +62,8 @@ def check_history(hist, kids, n):
         if not kid.results:
             return ("no-result", f"process {kid.idx} ended without a result (exit {kid.p.returncode})")
         r = kid.results[0]
+        if r["status"] != "ok" and kid.idx == impatient and r.get("exc") == "TimeoutError":
+            continue  # "within the timeout": giving up is the documented behaviour of a request whose timeout expires
         if r["status"] != "ok":
             return ("exception", f"process {kid.idx} raised {r.get('exc')}: {r.get('msg')}")
         if not r["correct"]:
@@ -68,8 +80,16 @@ def evaluate(case, wd):
     d = wd / f"{h}_{len(_os.listdir(wd))}"
     d.mkdir()
     job = {"cache": str(d / "cache"), "requests": [{"form": case["form"], "timeout": 400}]}
-    hist, kids = sched.run_schedule([job] * case["n"], case["schedule"], d)
+    jobs = [job] * case["n"]
+    imp = case.get("impatient")
+    if imp:
+        jobs = list(jobs)
+        jobs[imp["who"]] = {"cache": str(d / "cache"), "requests": [{"form": case["form"], "timeout": int(imp["timeout"])}]}
+    hist, kids = sched.run_schedule(jobs, case["schedule"], d)
     classes = [f"n:{case['n']}", f"form:{case['form']}"]
+    if imp:
+        r_imp = kids[imp["who"]].results[0] if kids[imp["who"]].results else {}
+        classes.append("impatient:" + ("timed-out" if r_imp.get("exc") == "TimeoutError" else str(r_imp.get("status"))))
     replay = {"case": case, "history": [f"{i}:{t}" for i, t in hist]}
     sample = {"n": case["n"], "schedule": case["schedule"], "history": " | ".join(f"{i}:{t}" for i, t in hist)[:900]}
 
@@ -77,7 +97,7 @@ def evaluate(case, wd):
         return Outcome("violation", case_id=h, classes=classes, key=f"{PROP}:{kind}:{spec_hash([i for i, _ in hist])}", bucket=f"{PROP}:{kind}", what=what + " | history: " +
                        " | ".join(f"{i}:{t}" for i, t in hist)[:1200], replay=replay, sample=sample)
 
-    bad = check_history(hist, kids, case["n"])
+    bad = check_history(hist, kids, case["n"], impatient=imp["who"] if imp else None)
     if bad:
         return viol(*bad)
     # late request
